@@ -173,6 +173,15 @@ def run(ctx):
                                                                    "more_witnesses": [x[3] for x in fl[1:6]]})
     ctx.notes["failing_inputs_by_signature"] = {"%s/%s" % k: len(v) for k, v in by_sig.items()}
     ctx.log("search: %d evaluations, %d failing inputs" % (ctx.notes.get("search_evaluations", 0), len(fails)))
+    ctx.notes["hygiene_oracles"] = (
+        "harness/c18/hygiene.go: the ASC / ADTS decoders also read every configuration of the enumerations (ADTS: one in 16) and "
+        "arbitrary bytes through a bytes.Reader over a sub-slice with guard bytes, a one-byte-per-Read reader and a reader "
+        "returning data together with io.EOF (reader-dependent, modifies-input), with a malformed relative decoded in between "
+        "(depends-on-earlier-calls); aac.FrequencyTable / ReverseFrequencies compared before/after every search part "
+        "(package-table-modified); ADTSHeader.Encode results re-read after the next Encode (result-changed-by-later-calls); "
+        "AudioSpecificConfig.Encode repeatable into a plain io.Writer and leaves the configuration alone; ES descriptors decoded "
+        "from guarded sub-slices and EncodeSW into SizeSize()+{1,9} writers (encode-sw-spare-room). Not demanded: decoded "
+        "descriptors / CreateESDescriptor / CreateEsdsBox hold the slices they are given (C20 audited lists)")
     # exhaustive: the finite domain of the property was enumerated completely on both sides
     ctx.notes["exhaustive"] = True
     ctx.notes["exhaustive_scope"] = (
